@@ -324,6 +324,26 @@ def clause10_early_guards(ctx, P):
            "%d deferred path(s) install both guards" % n, witness=bad[0].witness() if bad else None)
 
 
+def clause11_target_is_the_path(ctx, P):
+    """the handler is selected by the PATH component of the request target, wherever it starts: find_url_handler() gets
+    at + field_data[UF_PATH].off and field_data[UF_PATH].len - offset and length of the same parsed component.  (A target in absolute
+    form, GET http://host/api/jet/ HTTP/1.1, is a valid upgrade; looked up from the start of the target it is answered 404.)"""
+    f = P.fn("http_connection.c:on_url")
+    UF_PATH = Q.enum(P, "UF_PATH")
+    cs = f.calls("find_url_handler")
+    ok = len(cs) == 1
+    why = "find_url_handler() call not found"
+    if ok:
+        a1, a2 = P.term(f, cs[0].a[1]), P.term(f, cs[0].a[2])
+        ok = a1[0] == "index" and a1[1] == ("param", 1, f.params[1]["name"]) and a1[2][0] == "load" and a1[2][1][0] == "field" and \
+            a2[0] == "load" and a2[1][0] == "field" and a1[2][1][1] == a2[1][1] and a1[2][1] != a2[1] and \
+            a2[1][1][0] == "index" and a2[1][1][2] == ("const", UF_PATH)
+        why = "it is given (%s, %s)" % (fmt_term(a1)[:50], fmt_term(a2)[:50])
+    ctx.ob("C13.6 R-PAIR", f, "handler-looked-up-by-the-path-component", ok,
+           "on_url() does not look the handler up with offset and length of the parsed path component (%s): a request target that does not "
+           "start with its path (absolute form) is answered 404 although it is a valid upgrade" % why)
+
+
 def clause7_error_handlers(ctx, P, cg):
     """every transport error handler (the function a buffered socket calls on a read/write error or an over-long line)
     releases the connection on EVERY path - in whatever protocol phase the error arrives"""
@@ -436,5 +456,6 @@ def run(ctx):
         clause8_accepted_fd(ctx, P, cg)
         clause9_close_hands_over(ctx, P, cg)
         clause10_early_guards(ctx, P)
+        clause11_target_is_the_path(ctx, P)
         from .c12 import clause5_handshake
         clause5_handshake(ctx, P, cg)
